@@ -22,6 +22,7 @@ class Environment:
 
     def set_type(self, name, type_annotation):
         self.types[name] = type_annotation
+        self.constants.pop(name, None)
 
     def set_constant(self, name, value):
         if isinstance(value, ast.Constant):
@@ -34,6 +35,7 @@ class Environment:
 
     def copy_type(self, origin, dest):
         self.types[dest] = self.types[origin]
+        self.constants.pop(dest, None)
 
     def get_type(self, name):
         return self.types.get(name)
